@@ -40,6 +40,8 @@ def policy_dict(scn):
             pol[e] = {'lifetime': {'minutes': 5}}
     elif p == 'ec':
         d['entity_categories'] = ['refeds']
+    elif p == 'ec_swamid':
+        d['entity_categories'] = ['swamid']
     elif p == 'ec_names1':
         d['entity_categories'] = ['refeds']
         d['attribute_restrictions'] = {'givenName': None}
@@ -49,12 +51,16 @@ def policy_dict(scn):
 DECLS = ['none', 'req_a1', 'req_a1_v2', 'req_a3_opt_a2', 'opt_a2', 'req_a1_v9']
 
 
-def sp_id(decl, has_cat):
-    return '%s/%s/%s' % (env.SP, decl, 'rs' if has_cat else 'plain')
+RE = 'http://www.swamid.se/category/research-and-education'
+EU = 'http://www.swamid.se/category/eu-adequate-protection'
+
+
+def sp_id(decl, has_cat, swamid='none'):
+    return '%s/%s/%s%s' % (env.SP, decl, 'rs' if has_cat else 'plain', '' if swamid == 'none' else '/' + swamid)
 
 
 def sp_ids():
-    return [sp_id(d, c) for d in DECLS for c in (False, True)]
+    return [sp_id(d, c, sw) for d in DECLS for c in (False, True) for sw in ('none', 're_only', 're_eu')]
 
 
 _FED = []
@@ -69,12 +75,20 @@ def federation():
 
 
 def _federation():
-    extra = ('<md:Extensions><mdattr:EntityAttributes xmlns:mdattr="urn:oasis:names:tc:SAML:metadata:attribute">'
-             '<saml:Attribute xmlns:saml="%s" Name="http://macedir.org/entity-category" '
-             'NameFormat="urn:oasis:names:tc:SAML:2.0:attrname-format:uri"><saml:AttributeValue>%s</saml:AttributeValue>'
-             '</saml:Attribute></mdattr:EntityAttributes></md:Extensions>' % (sb.NS_SAML, RS))
-    return [env.sp_metadata(entity_id=sp_id(d, c), requested=requested({'decl': d}), extra=extra if c else '')
-            for d in DECLS for c in (False, True)]
+    def ext(cats):
+        if not cats:
+            return ''
+        return ('<md:Extensions><mdattr:EntityAttributes xmlns:mdattr="urn:oasis:names:tc:SAML:metadata:attribute">'
+                '<saml:Attribute xmlns:saml="%s" Name="http://macedir.org/entity-category" '
+                'NameFormat="urn:oasis:names:tc:SAML:2.0:attrname-format:uri">%s</saml:Attribute></mdattr:EntityAttributes></md:Extensions>'
+                % (sb.NS_SAML, ''.join('<saml:AttributeValue>%s</saml:AttributeValue>' % c for c in cats)))
+    out = []
+    for d in DECLS:
+        for c in (False, True):
+            for sw in ('none', 're_only', 're_eu'):
+                cats = ([RS] if c else []) + {'none': [], 're_only': [RE], 're_eu': [RE, EU]}[sw]
+                out.append(env.sp_metadata(entity_id=sp_id(d, c, sw), requested=requested({'decl': d}), extra=ext(cats)))
+    return out
 
 
 def requested(scn):
@@ -88,7 +102,7 @@ def requested(scn):
 def replay(case):
     scn = case['scn']
     idp = both_roles(federation(), policy_dict(scn))
-    me = sp_id(scn['decl'], scn['hasCat'])
+    me = sp_id(scn['decl'], scn['hasCat'], scn.get('swamidCat', 'none'))
     identity = {}
     for a, vals in scn['ident'].items():
         if vals:
@@ -184,7 +198,7 @@ def main():
         for path, o in sorted(obs['paths'].items()):
             pkey = dict(key, path=path)
             if o['outcome'] == 'exception':
-                if path == 'authn':
+                if path == 'authn' and not scn.get('typed'):
                     chk.note('IdP raised for %s: %s' % (json.dumps(scn, sort_keys=True), o['exc']))
                 continue
             rel = o['released']
@@ -203,7 +217,7 @@ def main():
         raise fw.Machinery('nothing was ever released: templates broken')
     chk.cov['exhaustive'] = chk.tier == 'thorough'
     chk.cov['rule'] = ('scenarios of IdPRelease.tla, each on a long-lived server that serves twelve kinds of provider and has just served '
-                      'none or one of them (thorough: all 62 208; quick: the 4 608 text-valued ones without predecessor, half of the byte-valued ones and a seeded 8% of the rest): identity (3 attributes, multi-valued, non-ASCII, upper-case key) x 8 policy '
+                      'none or one of them (thorough: all 63 936; quick: the 4 608 text-valued ones without predecessor, half of the byte-valued ones and a seeded 8% of the rest): identity (3 attributes, multi-valued, non-ASCII, upper-case key) x 9 policy '
                       'shapes (none, names, value pattern, two overlapping value patterns, per-SP entry, per-SP entry falling back to default, entity categories, '
                       'categories + names) x 6 SP declarations (required/optional, value constraints, unsatisfiable) x entity category '
                       'x fail_on_missing_requested')
